@@ -122,7 +122,16 @@ func (e *Engine) onPacket(reader enc.ParseReader) error {
 	// First check LpPacket, and do further parse.
 	if pkt.LpPacket != nil {
 		lpPkt := pkt.LpPacket
-		if lpPkt.FragIndex != nil || lpPkt.FragCount != nil {
+		// An absent FragIndex is 0 and an absent FragCount is 1 (NDNLPv2): fragment 0 of 1,
+		// spelled out or not, is a whole network packet.
+		fragIndex, fragCount := uint64(0), uint64(1)
+		if lpPkt.FragIndex != nil {
+			fragIndex = *lpPkt.FragIndex
+		}
+		if lpPkt.FragCount != nil {
+			fragCount = *lpPkt.FragCount
+		}
+		if fragIndex != 0 || fragCount != 1 {
 			e.log.Warnf("Fragmented LpPackets are not supported. Drop.")
 			return nil
 		}
